@@ -159,6 +159,15 @@ func (r *Reconciler) Reconcile(ctx context.Context, req reconcile.Request) (reco
 		latestRev = lr.Spec.Revision
 	}
 
+	// Revisions that lost their controller reference (e.g. backup/restore)
+	// are re-adopted below. Take their revision numbers into account too, so
+	// that revision numbers never go backwards.
+	for i := range rl.Items {
+		if metav1.GetControllerOf(&rl.Items[i]) == nil && rl.Items[i].Spec.Revision > latestRev {
+			latestRev = rl.Items[i].Spec.Revision
+		}
+	}
+
 	for i := range rl.Items {
 		rev := &rl.Items[i]
 
